@@ -494,6 +494,48 @@ def magic_numbers(go, cd, gc):
     return rows, unrec, jan[0], annotated
 
 
+def parse_go_limit_init():
+    """steps of package consts' init() after the Atoi block, and the C derivations of the dependent limits"""
+    src = read("common/consts/ebpf.go")
+    m = re.search(r"^func init\(\) \{\n(.*?)^\}\n", src, re.S | re.M)
+    if not m:
+        raise Anchor("anchor moved: init() of common/consts/ebpf.go")
+    body = re.sub(r"//[^\n]*", "", m.group(1))
+    head = re.match(r'\s*if MaxMatchSetLen_ != "" \{\s*i, err := strconv\.Atoi\(MaxMatchSetLen_\)\s*if err != nil \{\s*panic\(err\)\s*\}\s*MaxMatchSetLen = i\s*\}', body)
+    if not head:
+        raise Anchor("anchor moved: init() of common/consts no longer starts with the Atoi(MaxMatchSetLen_) block")
+    rest = body[head.end():]
+    steps = []
+    while rest.strip():
+        g = re.match(r"\s*if MaxMatchSetLen%(\d+) != 0 \{\s*panic\([^\n]*\)\s*\}", rest)
+        r = re.match(r"\s*MaxMatchSetLen = \(MaxMatchSetLen \+ (\d+)\) / (\d+) \* (\d+)\s*\n", rest)
+        if g:
+            steps.append("IGuardMod %s" % g.group(1))
+            rest = rest[g.end():]
+        elif r and r.group(2) == r.group(3):
+            steps.append("IRoundUp %s %s" % (r.group(1), r.group(2)))
+            rest = rest[r.end():]
+        else:
+            raise Anchor("unrecognised statement in init() of common/consts/ebpf.go: %r" % rest.strip()[:120])
+    if not re.search(r"^\tMaxMatchSetLen_\s*=\s*\"\"\s*$", src, re.M) or not re.search(r"^\tMaxMatchSetLen\s*=\s*32 \* 32\s*$", src, re.M):
+        raise Anchor("anchor moved: MaxMatchSetLen_/MaxMatchSetLen declarations")
+    mk = read("Makefile")
+    if "-DMAX_MATCH_SET_LEN=$(MAX_MATCH_SET_LEN)" not in mk or "common/consts.MaxMatchSetLen_=$(MAX_MATCH_SET_LEN)" not in mk:
+        raise Anchor("anchor moved: Makefile no longer passes MAX_MATCH_SET_LEN to both C (-D) and Go (-X)")
+    c = strip_c_comments(read("control/kern/tproxy.c"))
+    if not re.search(r"#ifndef MAX_MATCH_SET_LEN\s*\n#define MAX_MATCH_SET_LEN", c):
+        raise Anchor("anchor moved: #ifndef MAX_MATCH_SET_LEN guard in tproxy.c")
+    lpm = re.search(r"#define MAX_LPM_NUM \(MAX_MATCH_SET_LEN \+ (\d+)\)", c)
+    bm = re.search(r"struct domain_routing \{\s*__u32 bitmap\[MAX_MATCH_SET_LEN / (\d+)\];\s*\}", c)
+    rm = re.search(r"__type\(value, struct match_set\);\s*__uint\(max_entries, MAX_MATCH_SET_LEN\);", c)
+    if not (lpm and bm and rm):
+        raise Anchor("anchor moved: C derivations of MAX_LPM_NUM / domain_routing.bitmap / routing_map.max_entries from MAX_MATCH_SET_LEN")
+    gd = set(re.findall(r"N := len\(n\.\w+\) / (\d+)", read("component/routing/domain_matcher/ahocorasick_slimtrie.go")))
+    if len(gd) != 1:
+        raise Anchor("anchor moved: bitmap word count of the Go domain matcher")
+    return {"steps": steps, "c_lpm_add": int(lpm.group(1)), "c_bitmap_div": int(bm.group(1)), "go_bitmap_div": int(gd.pop())}
+
+
 # key types: struct types that are (or embed) the key of a map the control plane shares
 KEY_STRUCTS = ("tuples_key", "tuples", "redirect_tuple", "lpm_key")
 # every function of tproxy.c that BUILDS an object of a key type, and how this check exercises it
@@ -675,6 +717,7 @@ def translate(sc):
     add("IPPROTO_UDP", 17, need(gc, "consts.IPPROTO_UDP", "Go const"))
     kb = scan_key_builders(tproxy)
     mrows, munrec, jan_lit, mann = magic_numbers(go, cd, gc)
+    lim = parse_go_limit_init()
     cp_src = read("control/control_plane.go")
     jt = {}
     for nm in ("tcpConnStateTimeoutEstablished", "tcpConnStateTimeoutClosing"):
@@ -744,6 +787,11 @@ def translate(sc):
     L.append("Definition go_janitor_closing_literal : N := %d." % jan_lit)
     L.append("Definition go_tcp_timeout_established_ns : N := %d." % jt["tcpConnStateTimeoutEstablished"])
     L.append("Definition go_tcp_timeout_closing_ns : N := %d." % jt["tcpConnStateTimeoutClosing"])
+    L.append("(* init() of common/consts/ebpf.go after the Atoi block; C derivations from MAX_MATCH_SET_LEN *)")
+    L.append("Definition go_init_steps : list init_step := [%s]." % "; ".join(lim["steps"]))
+    L.append("Definition c_limit_lpm_add : N := %d." % lim["c_lpm_add"])
+    L.append("Definition c_limit_bitmap_div : N := %d." % lim["c_bitmap_div"])
+    L.append("Definition go_limit_bitmap_div : N := %d." % lim["go_bitmap_div"])
     L.append("(* does copy_reversed_tuples() clear its destination before assigning the members? *)")
     L.append("Definition c_reversed_memset : bool := %s." % vlib.cbool(kb["reversed_memset"]))
     for req in ("tuples_key", "lpm_key", "match_set", "domain_routing"):
@@ -755,7 +803,7 @@ def translate(sc):
     L.append("")
     info = {"cd": cd, "c_decls": c_decls, "c_skipped": c_skipped, "go": go, "go_decl_list": go_decl_list, "pairs": pairs, "gopairs": gopairs,
             "unpaired": unpaired, "consts": consts, "conn_expr": ce, "spec": spec, "key_builders": kb,
-            "magic_rows": mrows, "magic_unrecognised": munrec, "magic_annotated": mann, "cenum": cenum, "jan_timeouts": jt}
+            "magic_rows": mrows, "magic_unrecognised": munrec, "magic_annotated": mann, "cenum": cenum, "jan_timeouts": jt, "limit": lim}
     return info, "\n".join(L) + "\n"
 
 
@@ -1443,6 +1491,73 @@ def layout_stage(sc, info, cbin, go_layouts):
     return tie, viol, stats
 
 
+LIMIT_PROBES = [32, 1000, 1024, 1056, 2048]
+
+
+def limit_stage(sc, d, info):
+    """differential for the build-time override: C limits compiled with -DMAX_MATCH_SET_LEN=N, Go limits of a binary linked with
+    -X consts.MaxMatchSetLen_=N, the model's derivations.  returns (tie, violations, stats)"""
+    import subprocess
+    tie, viol = [], []
+    ok, out = vlib.coq_eval("C19_limits", "From Coq Require Import List NArith Bool String.\nFrom Dae Require Import C19_Spec C19_Lang C19_Model C19_Check.\n"
+                            "Import ListNotations.\nOpen Scope N_scope.\nDefinition LR := Eval vm_compute in limit_report [%s].\nPrint LR.\n" % "; ".join(str(n) for n in LIMIT_PROBES))
+    vals = coq_values(out, ["LR"]) if ok else None
+    if vals is None:
+        return ["limit evaluation in Coq failed: " + out[-800:]], [], {}
+    model = {}
+    for row in vals["LR"]:
+        n, (acc, m, agree), (cr, cw, cl) = row[0], row[1], row[2]
+        model[n] = {"accepted": acc, "go_limit": m, "agree": agree, "c": (cr, cw, cl)}
+    # C: the model's numbers must be what clang derives (compile-time assertions, parse only)
+    procs = []
+    for n in LIMIT_PROBES:
+        cr, cw, cl = model[n]["c"]
+        fn = os.path.join(d, "c19_lim_%d.c" % n)
+        open(fn, "w").write('#include "tproxy.c"\n_Static_assert(MAX_MATCH_SET_LEN == %d, "rule limit");\n_Static_assert(MAX_LPM_NUM == %d, "lpm slots");\n'
+                            '_Static_assert(sizeof(struct domain_routing) / sizeof(__u32) == %d, "bitmap words");\n'
+                            '_Static_assert(sizeof(*((typeof(routing_map) *)0)->max_entries) / sizeof(int) == %d, "routing_map entries");\n' % (cr, cl, cw, cr))
+        procs.append((n, subprocess.Popen(["clang", "-DMAX_MATCH_SET_LEN=%d" % n, "-Wno-everything", "-fsyntax-only", "-I", d, fn], cwd=d,
+                                          stdout=subprocess.PIPE, stderr=subprocess.PIPE, text=True)))
+    # Go: one test binary of package consts per N, linked with -X as the Makefile does
+    ov = sc.path("overlay_consts.json")
+    json.dump({"Replace": {os.path.join(vlib.REPO, "common", "consts", "zz_verif_c19limit_test.go"): os.path.join(vlib.VERIF, "harness", "consts", "c19limit_test.go")}}, open(ov, "w"))
+    gprocs = []
+    for n in LIMIT_PROBES:
+        outb = sc.path("consts_%d.test" % n)
+        gprocs.append((n, outb, subprocess.Popen(["go", "test", "-c", "-vet=off", "-tags", vlib.TAGS, "-overlay", ov,
+                                                  "-ldflags", "-X github.com/daeuniverse/dae/common/consts.MaxMatchSetLen_=%d" % n, "-o", outb, "./common/consts"],
+                                                 cwd=vlib.REPO, env=vlib.go_env(), stdout=subprocess.PIPE, stderr=subprocess.PIPE, text=True)))
+    for n, p in procs:
+        so, se = p.communicate(timeout=120)
+        if p.returncode != 0:
+            tie.append("C limits for -DMAX_MATCH_SET_LEN=%d differ from the model's derivation %s: %s" % (n, model[n]["c"], se[-300:]))
+    observed = {}
+    for n, outb, p in gprocs:
+        so, se = p.communicate(timeout=600)
+        if p.returncode != 0 or not os.path.exists(outb):
+            return tie + ["Go limit helper does not build for N=%d: %s" % (n, (so + se)[-600:])], [], {}
+        res = sc.path("limit_%d.out" % n)
+        rc, so, se, dt = vlib.run_go_harness(outb, "TestVerifC19Limit", "/dev/null", res, timeout=60)
+        if rc == 0 and os.path.exists(res):
+            a, b = open(res).read().split()
+            observed[n] = {"accepted": True, "go_limit": int(a), "go_words": int(b)}
+        elif "panic" in so + se:
+            observed[n] = {"accepted": False, "panic": [l for l in (so + se).split("\n") if "panic" in l][:1]}
+        else:
+            return tie + ["Go limit helper failed for N=%d: %s" % (n, (so + se)[-600:])], [], {}
+    for n in LIMIT_PROBES:
+        o, mo = observed[n], model[n]
+        cr, cw, cl = mo["c"]
+        if o["accepted"] != mo["accepted"] or (o["accepted"] and o["go_limit"] != mo["go_limit"]):
+            tie.append("limit override N=%d: Go binary %s, model of init() %s" % (n, o, mo))
+        if o["accepted"] and not (o["go_limit"] == cr and o["go_words"] == cw and cw * 32 == cr and o["go_limit"] <= cl):
+            viol.append(("limit:%d" % n, {"MAX_MATCH_SET_LEN": n, "kernel": {"rules": cr, "bitmap_words": cw, "lpm_slots": cl},
+                                          "control_plane": {"rules": o["go_limit"], "bitmap_words": o["go_words"], "lpm_ring_modulus": o["go_limit"]},
+                                          "how": "make MAX_MATCH_SET_LEN=%d: clang -DMAX_MATCH_SET_LEN=%d control/kern/tproxy.c; go build -ldflags '-X github.com/daeuniverse/dae/common/consts.MaxMatchSetLen_=%d'" % (n, n, n)},
+                         "build option MAX_MATCH_SET_LEN=%d: kernel runs with %d rules / %d bitmap words / %d LPM slots, control plane with %d rules / %d words" % (n, cr, cw, cl, o["go_limit"], o["go_words"])))
+    return tie, viol, {"probes": LIMIT_PROBES, "observed": observed, "go_init_steps": info["limit"]["steps"]}
+
+
 def bpf_target_check(sc, d, info, csz, cfl):
     """second opinion: the same numbers hold for -target bpf (compile-time _Static_assert)"""
     L = ['#include "tproxy.c"']
@@ -1646,6 +1761,10 @@ def main(argv):
         rc, so, se, dt = vlib.run([cbin], cwd=d, input="L\n", timeout=60)
         csz, cfl, _, cmaps = parse_c_layout_output(so)
         bpf_status, bpf_log = bpf_target_check(sc, d, info, csz, cfl)
+        mtie, mviol, mstats = limit_stage(sc, d, info)
+        tie += mtie
+        lviol += mviol
+        cov["limit_override"] = mstats
         if bpf_status == "differs":
             tie.append("clang -target bpf lays a declaration out differently from the host build: " + bpf_log)
         cov["layout_cross_checks"] = {"numbers_compared_model_vs_compilers": lstats.get("layout_numbers_compared", 0), "clang_target_bpf": bpf_status,
